@@ -1,10 +1,10 @@
 package stablecomp
 
 import (
-	"strings"
 	"bytes"
 	"fmt"
 	"math"
+	"strings"
 	"testing"
 
 	"google.golang.org/protobuf/reflect/protoreflect"
